@@ -123,7 +123,7 @@ def quadCase (start cp e : Pt α) (o : SegOracle α) (s : SState α) : Option (S
     let sel := selectCuts O s.T o.dT s.rem
     if sel.1.length != o.inv.length then none else
     let inv := monoClamp O.lt O.zero o.inv
-    let cut := cutsGen O.sub O.div O.one O.quadL O.quadR (start, cp, e) O.zero inv
+    let cut := cutsGen O.lt O.sub O.div O.one O.quadL O.quadR (start, cp, e) O.zero inv
     let st := cut.1.foldl (fun (st : SState α) (pc : Pt α × Pt α × Pt α) =>
         let st := { st with q := quadTo G pc.2.1 pc.2.2 st.q }
         let st := st.push
@@ -139,7 +139,7 @@ def cubeCase (start c1 c2 e : Pt α) (o : SegOracle α) (s : SState α) : Option
     let sel := selectCuts O s.T o.dT s.rem
     if sel.1.length != o.inv.length then none else
     let inv := monoClamp O.lt O.zero o.inv
-    let cut := cutsGen O.sub O.div O.one O.cubeL O.cubeR (start, c1, c2, e) O.zero inv
+    let cut := cutsGen O.lt O.sub O.div O.one O.cubeL O.cubeR (start, c1, c2, e) O.zero inv
     let st := cut.1.foldl (fun (st : SState α) (pc : Pt α × Pt α × Pt α × Pt α) =>
         let st := { st with q := cubeTo G pc.2.1 pc.2.2.1 pc.2.2.2 st.q }
         let st := st.push
